@@ -71,6 +71,10 @@ def run_shard(sh, ctx):
 		base = ctx.workdir / f'r{rnd}'
 		base.mkdir()
 		G = _cli.Genomes(rng, base / 'genomes', rng.randint(4, 14))
+		# some inputs are symbolic links whose own name differs from their target's: the label comes from the name that was given
+		for _ in range(rng.randint(1, 3)):
+			G.add_symlink(rng.randrange(len(G.items)))
+		ctx.count('genome_sets_with_symlinked_inputs')
 		n = len(G.items)
 		k, prefix = rng.choice([(5, 'AT'), (6, 'TA'), (7, 'AT'), (8, 'ACG'), (11, 'ATGAC')])
 		# a database whose signature file holds some of the genomes (+ they are the reference set for --use-db)
